@@ -112,9 +112,11 @@ theorem cut_goLines (cfg : Cfg) (st : LState) (ls : List Str) : cut (goLines cfg
     split
     · exact cut_stepLine _ _ _
     · rename_i h
-      rw [cut_append]
-      simp only [h, ih]
-      rfl
+      split
+      · rw [cut_append]; simp only [h, cut_flushBlock]; rfl
+      · rw [cut_append]
+        simp only [h, ih]
+        rfl
 
 theorem cut_readData (cfg : Cfg) (ls : List Str) : cut (readData cfg ls) = readData cfg ls := cut_goLines _ _ _
 
@@ -323,7 +325,9 @@ theorem opened_goLines (cfg : Cfg) (st : LState) (ls : List Str) : opened (goLin
     simp only
     split
     · exact opened_stepLine _ _ _
-    · rw [opened_append, opened_stepLine, ih]; rfl
+    · split
+      · rw [opened_append, opened_stepLine, opened_flushBlock]; rfl
+      · rw [opened_append, opened_stepLine, ih]; rfl
 
 theorem opened_readData (cfg : Cfg) (ls : List Str) : opened (readData cfg ls) = [] := opened_goLines _ _ _
 
